@@ -614,17 +614,19 @@ def _apply_map_ops(bi, model, ops):
             model[6] = e6
             model[0] = keep0
         elif op == "del_absent":
-            for k in (2, 6, 100):
+            for k in (2, 6, 100, 5):
                 if k not in model:
                     try:
                         del se[k]
                         raise AssertionError("deleting an absent offset did not raise")
                     except KeyError:
                         pass
-            try:
-                se.pop(6)
-            except KeyError:
-                pass
+            if 6 not in model:
+                try:
+                    se.pop(6)
+                    raise AssertionError("popping an absent offset did not raise")
+                except KeyError:
+                    pass
         elif op == "noop":
             pass
         else:
